@@ -15,6 +15,7 @@ import (
 	"fmt"
 	"os"
 	"runtime/debug"
+	"runtime/pprof"
 	"time"
 
 	palomamempool "github.com/palomachain/paloma/v2/app/mempool"
@@ -121,7 +122,15 @@ func main() {
 	keep := fs.Bool("keep-tape", false, "always emit the tape")
 	fs.Parse(os.Args[2:])
 
+	debug.SetGCPercent(800) // runs are short-lived and allocation heavy; memory is plentiful
 	defer world.CleanupScratch()
+	if pf := os.Getenv("VERIF_CPUPROFILE"); pf != "" {
+		f, err := os.Create(pf)
+		if err == nil {
+			pprof.StartCPUProfile(f)
+			defer pprof.StopCPUProfile()
+		}
+	}
 	w := bufio.NewWriter(os.Stdout)
 	defer w.Flush()
 	enc := json.NewEncoder(w)
